@@ -310,6 +310,10 @@ func (matrix *SparseInt16Matrix) AsVector() Vector {
   return matrix.AsSparseInt16Vector()
 }
 func (matrix *SparseInt16Matrix) storageLocation() uintptr {
+  if matrix.values.Dim() == 0 {
+    // matrices without elements have no storage to share
+    return uintptr(unsafe.Pointer(matrix))
+  }
   return uintptr(unsafe.Pointer(matrix.values.AT(0).ptr))
 }
 /* const interface
